@@ -282,6 +282,13 @@ func registerHarnessAPI() {
 	ext[hname("vAllocBytes")] = func(in *Interp, fr *frame, args []value) value { return uint64(in.alloc) }
 	ext[hname("vSymbolic")] = func(in *Interp, fr *frame, args []value) value { return in.cfg.Concrete == nil }
 	ext[hname("vNow")] = func(in *Interp, fr *frame, args []value) value { return in.nowValue() }
+	ext[hname("vFixNow")] = func(in *Interp, fr *frame, args []value) value {
+		if _, ok := in.natives["now"]; ok {
+			panic(in.unsupported("vFixNow after the clock was read"))
+		}
+		in.natives["now"] = value(args[0].(uint64))
+		return nil
+	}
 	ext[hname("vConcretize")] = func(in *Interp, fr *frame, args []value) value {
 		switch v := args[0].(type) {
 		case *Term:
